@@ -100,6 +100,8 @@ def _ix(ix):
         return ("np.array(" if t == "arr" else "") + str(ix[1]) + (")" if t == "arr" else "")
     if t == "mask":
         return "mask" + str([bool(b) for b in ix[1]])
+    if t == "blist":
+        return str([bool(b) for b in ix[1]])
     if t == "ell":
         return "..."
     if t == "unit":
